@@ -101,6 +101,10 @@ def run_patch_variant(v: dict) -> dict:
         for prop in v["props"]:
             r = subprocess.run([sys.executable, "-m", "tlverif", prop, "--tier", "quick"], cwd=HERE.parent, env=env, capture_output=True, text=True)
             out.append((prop, r.returncode, r.stdout + r.stderr))
+            if v["kind"] == "neutral" and prop == "all" and r.returncode == 0:
+                # the rules of the thorough tier (extended catalogue) must stay silent too; `all` runs no nested self-test
+                r = subprocess.run([sys.executable, "-m", "tlverif", prop, "--tier", "thorough"], cwd=HERE.parent, env=env, capture_output=True, text=True)
+                out.append((prop + "/thorough", r.returncode, r.stdout + r.stderr))
         if v["kind"] == "break":
             if any(c == 1 for _, c, _ in out):
                 return {"id": v["id"], "ok": True}
@@ -306,6 +310,11 @@ def run_global(name: str) -> dict:
             compile(f.read_text(), str(f), "exec")
         env = dict(os.environ, TLVERIF_REPO=str(root), TLVERIF_NO_EVIDENCE="1")
         r = subprocess.run([sys.executable, "-m", "tlverif", "all", "--tier", "quick"], cwd=HERE.parent, env=env, capture_output=True, text=True)
+        if r.returncode == 0:
+            r2 = subprocess.run([sys.executable, "-m", "tlverif", "all", "--tier", "thorough"], cwd=HERE.parent, env=env, capture_output=True, text=True)
+            r.stdout += r2.stdout
+            r.stderr += r2.stderr
+            r.returncode = r2.returncode
         bad = [ln for ln in (r.stdout + r.stderr).splitlines() if ln.startswith(("VIOLATION", "UNDECIDED", "ANALYSIS-ERROR"))]
         if r.returncode != 0 or bad:
             return {"id": "global:" + name, "ok": False, "why": f"whole-tree neutral transformation raised an alarm (exit {r.returncode})", "out": "\n".join(bad[:12])}
